@@ -22,7 +22,7 @@ func init() {
 			"CODEC-1 the field sequence (width, byte order, float-bits flag, field) extracted from every encoder equals that of its decoder and of every hand-rolled sibling; CODEC-2 it equals the documented layout (offsets included for the fixed-size records); " +
 			"CODEC-3 every encoding/binary byte order used in glow, server and client is LittleEndian; CODEC-4 fixed-size decoders refuse any input whose length differs from the sum of the field widths (80, 148) before the first read, streaming decoders check the remaining length before every field (BOUND, with C12); " +
 			"CODEC-5 every SigningBytes method starts with its structure's name as ASCII prefix, no prefix is a prefix of another, and every glow.Sign / glow.Verify call signs either a SigningBytes result, the client's hand-built copy of one (compared), or one of the two documented unprefixed formats (sync reply, recent-reports JSON); " +
-			"CODEC-SIZE the weekly-statistics buffer length equals 4 + n*(32 + 2016*8 + 2016*8) + 4 (+64), and every cursor write is followed by an advance of exactly its width; CODEC-6 variable-length parts are length-prefixed or last; CODEC-7 the structures sent as JSON have no custom marshalling, no omitting tags and only exactly round-tripping field types. " +
+			"CODEC-SIZE the weekly-statistics buffer length equals 4 + n*(32 + 2016*8 + 2016*8) + 4 (+64), and every cursor write is followed by an advance of exactly its width (an encoder that computes its offsets from loop indices is checked as a tiling instead: first write at 0, each write or loop starts where its predecessor ends, each loop advances by the bytes of one pass); CODEC-6 variable-length parts are length-prefixed or last; CODEC-7 the structures sent as JSON have no custom marshalling, no omitting tags and only exactly round-tripping field types. " +
 			"NOT decided: that Keccak256/secp256k1 reject flipped bits and that signing is deterministic (trusted library, RFC 6979); exact float semantics beyond 'the bit pattern is copied'; encoding/json's own behaviour.",
 		Assumptions: append([]string{"encoding/binary, encoding/json, math.Float64bits behave as documented", "crypto.Sign is deterministic (RFC 6979)"}, baseAssumptions...),
 		Run:         runC15,
@@ -93,6 +93,27 @@ func normaliseEvents(evs []an.CodecEvent) []an.CodecEvent {
 				}
 			}
 		}
+	}
+	// writes and reads at constant offsets of one buffer may be issued in any order: within a run of them the layout is
+	// the order of the offsets
+	for i := 0; i < len(out); {
+		j := i
+		for j < len(out) && strings.HasPrefix(out[j].Off, "#") && out[j].Op == out[i].Op {
+			j++
+		}
+		if j-i > 1 {
+			run := out[i:j]
+			sort.SliceStable(run, func(a, b int) bool {
+				x, y := 0, 0
+				fmt.Sscan(run[a].Off[1:], &x)
+				fmt.Sscan(run[b].Off[1:], &y)
+				return x < y
+			})
+		}
+		if j == i {
+			j++
+		}
+		i = j
 	}
 	// prefix first
 	for i, e := range out {
@@ -246,7 +267,20 @@ func runC15(c *an.Ctx) {
 			handler = h
 		}
 		var inl []an.CodecEvent
+		delegated := false
 		for _, e := range ev(handler) {
+			if e.Op == "W" && e.Delegate != nil && e.Delegate == asS {
+				delegated = true
+			}
+		}
+		if delegated {
+			c.Proved("CODEC-1", handler, handler.Pos(), an.KeyOf(handler, "CODEC-1:the sync handler's inline server entry equals AuthorizedServer.Serialize"), "the sync handler's server entry equals AuthorizedServer.Serialize", "the handler appends AuthorizedServer.Serialize() itself")
+			n++
+		}
+		for _, e := range ev(handler) {
+			if delegated {
+				break
+			}
 			// events that write into the per-server buffer: offsets relative to a Location length, or the first four fixed ones
 			if e.Op == "W" && (strings.Contains(e.Off, "Location") || e.Field == "PublicKey" && e.Off == "#0" || strings.HasPrefix(e.Field, "byte:") || e.Field == "Location" || e.Field == "GCAAuthorization" ||
 				e.Field == "HttpPort" || e.Field == "TcpPort" || e.Field == "UdpPort") {
@@ -255,8 +289,10 @@ func runC15(c *an.Ctx) {
 		}
 		got := normL(sigs(inl, true))
 		// the inline writer sets byte 32 only when banned (the buffer is zeroed): same layout
-		compare("CODEC-1", "the sync handler's inline server entry equals AuthorizedServer.Serialize", handler, got, asWant)
-		n++
+		if !delegated {
+			compare("CODEC-1", "the sync handler's inline server entry equals AuthorizedServer.Serialize", handler, got, asWant)
+			n++
+		}
 	}
 	// inline reader in the client parser
 	if parser := findSyncParser(p); parser != nil {
@@ -512,6 +548,11 @@ func cursorAdvance(c *an.Ctx, fn *ssa.Function) {
 	p := c.P
 	fi := p.Info(fn)
 	n := 0
+	if tilingCheck(c, fn) {
+		// offsets computed from loop indices: the layout was checked as a tiling
+		c.Count("CODEC-SIZE", 1)
+		return
+	}
 	for _, e := range p.CodecEvents(fn) {
 		if e.Off != "" || e.Width <= 0 {
 			continue
